@@ -155,10 +155,6 @@ def small_spec(r, slot):
     return ['r', n, r.getrandbits(32)]
 
 
-def len_class(n):
-    return R.minimal_form(n)
-
-
 # ------------------------------------------------------------------ case generation
 _GEN_EXHAUSTED = False
 ENUM_FIRST_BYTES = [0x00, 0x01, 0x02, 0x14, 0x4b, 0x4c, 0x4d, 0x4e, 0x4f, 0x51, 0x60, 0x6a, 0x6d, 0x75, 0x76, 0x87, 0x88,
